@@ -31,3 +31,8 @@ pub fn vx_as_bytes(s: &str) -> (r: &[u8])
 /// UTF-8: a character takes at least one byte
 #[verifier::external_body]
 pub proof fn axiom_blen_ge_len(s: Seq<char>) ensures blen(s) >= s.len() {}
+// `Value: Clone` (derived in the real source): the clone is an equal value
+impl Clone for Value {
+    #[verifier::external_body]
+    fn clone(&self) -> (r: Self) ensures r == *self { unimplemented!() }
+}
